@@ -96,8 +96,8 @@ impl Campaign for C01c {
     }
     fn runs(&self, tier: Tier) -> u64 {
         match tier {
-            Tier::Quick => 12_000,
-            Tier::Thorough => 600_000,
+            Tier::Quick => 40_000,
+            Tier::Thorough => 1_200_000,
         }
     }
 
